@@ -273,10 +273,22 @@ def run_case(case):
                     effective[str(int(h.msg_count))] = bytes(mm.data_buffer[:sz]).hex()
                 return real_pm(src)
             mm.process_message = observing_pm
+            # a history is a few hundred events: a run() that is still going after two minutes is not going to stop
+            class Hang(BaseException):
+                pass
+
+            def on_alarm(signum, frame):
+                raise Hang("run() did not finish the scripted history within 120 s")
+            import signal
+            old_handler = signal.signal(signal.SIGALRM, on_alarm)
+            signal.alarm(120)
             try:
                 mm.run()
             except BaseException as e:  # noqa: escaped run(): the manager is dead
                 crash = type(e).__name__ + ":" + str(e)[:120]
+            finally:
+                signal.alarm(0)
+                signal.signal(signal.SIGALRM, old_handler)
     finally:
         for k, v in saved.items():
             setattr(M, k, v)
